@@ -75,6 +75,8 @@ inductive Err
   | indirect                -- "invalid indirect expansion"
   | negIndex                -- "negative array index"
   | substr (len : Int)      -- "<len>: substring expression < 0"
+  | assocSubscript          -- "unsupported associative array subscript"
+  | quote                   -- the syntax.QuoteError of ${x@Q} / ${x@A} (e.g. a null byte)
   | unsupported
   | panic                   -- a Go run-time panic
   deriving DecidableEq, Repr
@@ -392,7 +394,7 @@ def varIndSome (ifs : Str) (vr : Var) (idx : Idx) : Except Err (Str × Bool) :=
     else
       match idx with
       | .word t true => match mapGet vr.map t with | some s => .ok (s, true) | none => .ok ([], false)
-      | _ => .error .panic     -- idx.(*syntax.Word) on a non-word subscript such as `-1`
+      | _ => .error .assocSubscript     -- a subscript such as `-1` that is not a *syntax.Word
   | .unknown => .ok ([], false)
 
 def varInd (ifs : Str) (vr : Var) (idx : Idx) : Except Err (Str × Bool) :=
@@ -415,7 +417,7 @@ def assignElem (env : Env) (name : Str) (vr : Var) (idx : Idx) : Str → Except 
       match idx with
       | .none => .ok (env.put name { vr with map := mapPut vr.map ['0'] val, set := true })
       | .word t true => .ok (env.put name { vr with map := mapPut vr.map t val, set := true })
-      | _ => .error .panic
+      | _ => .error .assocSubscript
     | _ =>
       let l := vr.list.toList
       let i0 : Except Err Int :=
@@ -581,12 +583,12 @@ def upperFirstRune : Str → Str
 def otherOp (x : Ext) (name : Str) (orig : Var) (set : Bool) (str arg : Str) : Except Err Str :=
   if arg == ['Q'] then
     if !set then .ok str       -- an unset parameter expands to nothing
-    else match x.Q str with | some q => .ok q | none => .error .panic
+    else match x.Q str with | some q => .ok q | none => .error .quote
   else if arg == ['E'] then .error .unsupported      -- not modelled (never generated)
   else if arg == ['a'] then .ok orig.flags
   else if arg == ['A'] then
     match x.Q str with
-    | none => .error .unsupported      -- Quote's error is returned
+    | none => .error .quote      -- Quote's error is returned
     | some q =>
       let flags := orig.flags
       if flags.isEmpty then .ok (name ++ ['='] ++ q)
